@@ -35,7 +35,7 @@ type Gen struct {
 }
 
 // Lanes of the mechanism-directed generator (DESIGN 3.5).
-var Lanes = []string{"mixed", "segments", "stash", "nesting", "affix", "flags", "cmdline", "lone-line", "escapes", "space-classes"}
+var Lanes = []string{"mixed", "segments", "stash", "nesting", "affix", "flags", "cmdline", "lone-line", "escapes", "space-classes", "mixed", "segments", "case-pairs", "mixed", "nesting", "dots"}
 
 func (g *Gen) pick(xs ...string) string { return xs[g.R.Intn(len(xs))] }
 func (g *Gen) chance(n, d int) bool     { return g.R.Intn(d) < n }
@@ -177,6 +177,12 @@ func (g *Gen) distinctWords(n int) []string {
 	out := make([]string, n)
 	for i, j := range idx {
 		out[i] = pool[j] + g.pick("", "", "+", "x", "s?")
+	}
+	if g.chance(1, 3) && n >= 2 {
+		// a segment whose joined alternation starts with one group and ends with another one
+		out[0] = "(?:" + pool[idx[0]] + "|" + pool[idx[0]][:2] + "q)" + g.pick("x", "1", "_")
+		out[n-1] = g.pick("y", "2", "-") + "(?:" + pool[idx[n-1]] + "|" + pool[idx[n-1]][:1] + "zz)"
+		g.mark("group-bounded-segment")
 	}
 	return out
 }
@@ -360,6 +366,39 @@ func (g *Gen) Program(lane string) *Program {
 		g.O.Hostile = true
 		g.header(c, false, false)
 		g.body(c, 0, "", 1+g.R.Intn(5))
+	case "case-pairs":
+		// both cases of a letter as alternatives: rassemble prints engine flag groups (?i:...) that the clean-up has
+		// to remove; the result reproduces the listed finding F03, but the pass must still behave like plain stripping
+		if g.chance(1, 3) {
+			c.lines = append(c.lines, "##!+ s")
+		}
+		for k := 1 + g.R.Intn(3); k > 0; k-- {
+			w := g.pick("foo", "bar", "zed", "ab", "select")
+			up := strings.ToUpper(w[:1]) + w[1:]
+			switch g.R.Intn(4) {
+			case 0:
+				c.lines = append(c.lines, w+"x", up+"x")
+			case 1:
+				c.lines = append(c.lines, "["+w[:1]+strings.ToUpper(w[:1])+"]"+w[1:]+g.pick("", "+", "(?:a|b)"))
+			case 2:
+				c.lines = append(c.lines, w+"|"+strings.ToUpper(w), g.pick("x", "y.", "z"))
+			default:
+				c.lines = append(c.lines, "(?:"+w+"|"+up+")"+g.pick("1", "2|3", ""), strings.ToUpper(w)+"q")
+			}
+			if g.chance(1, 3) {
+				c.lines = append(c.lines, "##!=>")
+			}
+		}
+		c.lines = append(c.lines, g.Entry())
+	case "dots":
+		// any-character and newline alternatives that the engine merges into (?s:.) / (?-s:.)
+		if g.chance(1, 2) {
+			c.lines = append(c.lines, "##!+ s")
+		}
+		for k := 1 + g.R.Intn(3); k > 0; k-- {
+			c.lines = append(c.lines, g.pick(`.`, `\n`, `[^\n]`, `a.`, `.|\n`, `[^a\n]`, `a`, `\D`, `[a-c0-9]`, `(?:.|\n)x`, `.+`, `[^\na]`)+g.pick("", "", "b"))
+		}
+		c.lines = append(c.lines, g.Entry())
 	case "space-classes":
 		g.header(c, false, false)
 		for k := 1 + g.R.Intn(4); k > 0; k-- {
